@@ -133,7 +133,7 @@ static bool in_domain(const COp& op, cld a, cld b)
     }
 }
 
-static const char* cplx_known(const Options& o, const COp& op, cld a, cld b, double err)
+static const char* cplx_known(const Options& o, const COp& op, cld a, cld b, double err, double eps)
 {
     const std::string n = op.name;
     if (n == "pow_real" && o.known.count("cpow_large_exponent"))
@@ -148,7 +148,9 @@ static const char* cplx_known(const Options& o, const COp& op, cld a, cld b, dou
     {
         // D22: cancellation in the denominator cos 2x + cosh 2y (tanh: cosh 2x + cos 2y)
         ld d = n == "tan" ? cosl(2 * a.real()) + coshl(2 * a.imag()) : coshl(2 * a.real()) + cosl(2 * a.imag());
-        if (fabsl(d) < 0.125L && err <= 32.0 / (double)fabsl(d))
+        // when the exact denominator is itself below a few rounding units of its two terms (each of size 1), the computed one can
+        // vanish altogether and the quotient is inf or NaN: the same cancellation, at its end point
+        if (fabsl(d) < 0.125L && (err <= 32.0 / (double)fabsl(d) || fabsl(d) <= 16 * (ld)eps))
             return "ctan_near_pole";
     }
     return nullptr;
@@ -229,7 +231,7 @@ static bool run_batch(Context& cx, const COp& op, const Target& tg, const xsv_en
             std::string k = std::string(op.name) + ":" + CT<T>::tn;
             if (err > op.tol)
             {
-                const char* kn = cplx_known(cx.opt, op, za, zb, err);
+                const char* kn = cplx_known(cx.opt, op, za, zb, err, (double)eps);
                 if (kn)
                 {
                     cx.st.known_hits++;
